@@ -115,10 +115,17 @@ for v in res["violations"]:
         except Exception as e:
             scen = None
     if v["cls"] == "miri-error":
-        # not a data race and not a differing result: single-threaded territory (C15), reported as a note
-        print("NOTE: Miri reported a non-race error in scenario %d (miri seed %d): %s" % (v["idx"], v["miri_seed"], v["detail"][:300]))
-        v["counted"] = False
-        continue
+        # Not a data race and not a differing result. Re-run the same batch with the threads' operations
+        # executed one after another on one thread: if the error persists it does not need concurrency
+        # (single-threaded territory, C15: reported as a note); if it disappears it is a concurrency effect.
+        b = v.get("batch") or {}
+        env = dict(os.environ, MIRIFLAGS="-Zmiri-disable-isolation -Zmiri-seed=%d -Zmiri-preemption-rate=%s" % (v["miri_seed"], v["rate"]))
+        r = subprocess.run(["cargo", "+nightly", "miri", "run", "--offline", "-q", "--", "miri-run", str(b.get("seed", seed)), str(b.get("from", 0)), str(b.get("to", 0)), "-", "seq"], cwd=build, env=env, capture_output=True, text=True)
+        if r.returncode != 0:
+            print("NOTE: Miri reported a non-race error that persists without concurrency (not counted for C17) in index %d (miri seed %d): %s" % (v["idx"], v["miri_seed"], v["detail"][:300]))
+            v["counted"] = False
+            continue
+        v["cls"] = "ub-only-under-concurrency"
     n_written = sum(1 for x in res["violations"] if x.get("counted"))
     if n_written >= 3:
         v["counted"] = True
